@@ -991,7 +991,10 @@ pub fn execute(script: &Script, tape: &mut Tape, keep_log: bool) -> RunOut {
                 if sh2.borrow().tx_left_open {
                     violations.push(viol(
                         "no-transaction-left-open",
-                        format!("sqlite a connection stays inside a transaction after [{}]", phase.tasks.iter().flatten().map(op_kind).collect::<Vec<_>>().join(",")),
+                        format!(
+                            "sqlite a connection stays inside a transaction (cancelled operation: {})",
+                            phase.cancel.and_then(|(t, o, _)| phase.tasks.get(t as usize).and_then(|ops| ops.get(o as usize))).map(op_kind).unwrap_or("none")
+                        ),
                         format!("phase{pi}: every operation had returned or been cancelled, nothing was running or parked, and a pooled connection was still inside an open transaction (cancel={:?}): whatever the next callers write through that connection is never committed", phase.cancel),
                     ));
                     break;
